@@ -19,23 +19,23 @@ import (
 )
 
 type Output struct {
-	Harnesses    []string            `json:"harnesses"`
-	Ends         map[string]int      `json:"ends"`
-	PathsDone    map[string]int      `json:"paths_done"`
-	Covers       map[string]int      `json:"covers"`
-	Violations   []Violation         `json:"violations"`
-	ViolCount    map[string]int      `json:"violation_counts"`
-	Witnesses    []Witness           `json:"witnesses"`
-	Unsupported  map[string]int      `json:"unsupported"`
-	Inconclusive []string            `json:"inconclusive"`
-	Stubs        []string            `json:"stubs"`
-	Functions    []string            `json:"functions_encoded"`
-	Stats        map[string]float64  `json:"stats"`
-	Aux          map[string]float64  `json:"aux_solver_queries"`
-	TimedOut     bool                `json:"timed_out"`
-	WallS        float64             `json:"wall_s"`
-	LoadS        float64             `json:"load_s"`
-	Bounds       map[string]int      `json:"bounds"`
+	Harnesses    []string           `json:"harnesses"`
+	Ends         map[string]int     `json:"ends"`
+	PathsDone    map[string]int     `json:"paths_done"`
+	Covers       map[string]int     `json:"covers"`
+	Violations   []Violation        `json:"violations"`
+	ViolCount    map[string]int     `json:"violation_counts"`
+	Witnesses    []Witness          `json:"witnesses"`
+	Unsupported  map[string]int     `json:"unsupported"`
+	Inconclusive []string           `json:"inconclusive"`
+	Stubs        []string           `json:"stubs"`
+	Functions    []string           `json:"functions_encoded"`
+	Stats        map[string]float64 `json:"stats"`
+	Aux          map[string]float64 `json:"aux_solver_queries"`
+	TimedOut     bool               `json:"timed_out"`
+	WallS        float64            `json:"wall_s"`
+	LoadS        float64            `json:"load_s"`
+	Bounds       map[string]int     `json:"bounds"`
 }
 
 func readOverlay(repo, dir string) (map[string][]byte, map[string]string, error) {
@@ -60,7 +60,39 @@ func readOverlay(repo, dir string) (map[string][]byte, map[string]string, error)
 	return ov, repl, err
 }
 
+type redirFlag map[string]string
+
+func (p redirFlag) String() string { return fmt.Sprint(map[string]string(p)) }
+func (p redirFlag) Set(s string) error {
+	i := strings.Index(s, "=")
+	if i < 0 {
+		return fmt.Errorf("want from=to")
+	}
+	p[s[:i]] = s[i+1:]
+	return nil
+}
+
+type paramFlag map[string]int
+
+func (p paramFlag) String() string { return fmt.Sprint(map[string]int(p)) }
+func (p paramFlag) Set(s string) error {
+	i := strings.Index(s, "=")
+	if i < 0 {
+		return fmt.Errorf("want name=value")
+	}
+	var v int
+	if _, err := fmt.Sscan(s[i+1:], &v); err != nil {
+		return err
+	}
+	p[s[:i]] = v
+	return nil
+}
+
 func main() {
+	redirects := redirFlag{}
+	flag.Var(redirects, "redirect", "call redirection pkg.Func=pkg.Func (repeatable): modular stubs")
+	params := paramFlag{}
+	flag.Var(params, "param", "harness parameter name=value (repeatable)")
 	repo := flag.String("repo", "/repo", "repository under test")
 	ovDir := flag.String("overlay", "", "directory mirrored over the repository")
 	harness := flag.String("harness", "", "comma separated pkgpath.Func list")
@@ -100,7 +132,7 @@ func main() {
 
 	e := &Engine{
 		prog: prog, maxSteps: *maxSteps, maxDepth: *maxDepth, crossCheck: *cross, reverseMaps: *rev,
-		maxViol: *maxViol, maxWitness: *maxWit, noSummaries: *noSum,
+		params: params, maxViol: *maxViol, maxWitness: *maxWit, noSummaries: *noSum,
 		stubs: map[string]bool{}, funcsSeen: map[string]bool{}, violCount: map[string]int{},
 		witCount: map[string]int{}, unsupported: map[string]int{}, ends: map[string]int{},
 		pathsDone: map[string]int{}, coverCount: map[string]int{},
@@ -123,6 +155,18 @@ func main() {
 	}
 	if t := e.symPkg.Type("Err"); t != nil {
 		e.errPtrType = typesPointer(t)
+	}
+
+	e.redirects = map[string]*ssa.Function{}
+	for from, to := range redirects {
+		i := strings.LastIndex(to, ".")
+		pkg := prog.ImportedPackage(to[:i])
+		if pkg == nil || pkg.Func(to[i+1:]) == nil {
+			fmt.Fprintln(os.Stderr, "redirect target not found:", to)
+			os.Exit(3)
+		}
+		e.redirects[from] = pkg.Func(to[i+1:])
+		e.stubs[from+" -> "+to+" (modular stub)"] = true
 	}
 
 	hs := map[string]*ssa.Function{}
@@ -170,11 +214,12 @@ func main() {
 			"fork_queries": float64(agg.ForkQueries), "assume_queries": float64(agg.AssumeQueries),
 			"assert_queries": float64(agg.AssertQueries), "assert_unsat": float64(agg.AssertUnsat),
 			"assert_trivially_true": float64(agg.AssertTrivial),
-			"instructions": float64(agg.Steps),
-			"solver_queries": float64(agg.SolverQueries), "solver_sat": float64(agg.SolverSat),
+			"instructions":          float64(agg.Steps),
+			"solver_queries":        float64(agg.SolverQueries), "solver_sat": float64(agg.SolverSat),
 			"solver_unsat": float64(agg.SolverUnsat), "solver_unknown": float64(agg.SolverUnknown),
 			"solver_errors": float64(agg.SolverErrors), "solver_time_s": agg.SolverTime.Seconds(),
-			"cross_checks": float64(agg.Cross), "cross_disagreements": float64(agg.CrossDisagree),
+			"query_cache_hits": float64(agg.CacheHits),
+			"cross_checks":     float64(agg.Cross), "cross_disagreements": float64(agg.CrossDisagree),
 		},
 		Aux: map[string]float64{},
 	}
